@@ -194,6 +194,13 @@ pub(super) fn compile_with_plan(input: Plan, with: &crate::ast::WithClause) -> R
         }
     }
 
+    // DISTINCT applies to the projected rows; SKIP and LIMIT then slice the distinct rows.
+    if with.distinct {
+        plan = Plan::Distinct {
+            input: Box::new(plan),
+        };
+    }
+
     if let Some(skip) = &with.skip {
         validate_skip_or_limit_expression(skip)?;
         plan = Plan::Skip {
@@ -207,12 +214,6 @@ pub(super) fn compile_with_plan(input: Plan, with: &crate::ast::WithClause) -> R
         plan = Plan::Limit {
             input: Box::new(plan),
             limit: limit.clone(),
-        };
-    }
-
-    if with.distinct {
-        plan = Plan::Distinct {
-            input: Box::new(plan),
         };
     }
 
@@ -299,6 +300,13 @@ pub(super) fn compile_return_plan(
         }
     }
 
+    // DISTINCT applies to the projected rows; SKIP and LIMIT then slice the distinct rows.
+    if ret.distinct {
+        plan = Plan::Distinct {
+            input: Box::new(plan),
+        };
+    }
+
     if let Some(skip) = &ret.skip {
         validate_skip_or_limit_expression(skip)?;
         plan = Plan::Skip {
@@ -312,12 +320,6 @@ pub(super) fn compile_return_plan(
         plan = Plan::Limit {
             input: Box::new(plan),
             limit: limit.clone(),
-        };
-    }
-
-    if ret.distinct {
-        plan = Plan::Distinct {
-            input: Box::new(plan),
         };
     }
 
